@@ -6,6 +6,7 @@ var engineKind = map[string]string{
 	"pmm":  "simulated boot: generated multiboot memory map -> real early allocator -> real pmm.Init -> real bitmap allocator; sequential multi-caller histories against a frame-set reference model, injected reservation/mapping failures, natural early-boot OOM",
 	"vmm":  "software MMU over a fixed-address host arena: simulated CR3, TLB invalidation log, seeded failing frame allocator, independent page-table walker; real Map/Unmap/Translate/regions/PageDirectoryTable/vmm.Init/page-fault handler; harness plays bootloader (ELF sections tag) and CPU (page faults)",
 	"tree": "real aml.ObjectTree driven by seeded edit/lookup histories against a reference tree and reference resolver (single party, no hardware)",
+	"acpi": "simulated firmware memory (fixed-address arena below 4 GiB) with generated valid ACPI images and a fault plan (byte corruption, decoy root pointers, mapping failures); real probe/enumeration code",
 	"pmmc": "same simulated boot, bitmap_allocator.go rebuilt with go/ast-inserted yields; 2-16 goroutine tasks under the seeded scheduler, real spinlock; ownership invariant, conservation at quiescence, exact deadlock detection, porcupine linearizability of recorded histories",
 }
 
@@ -63,4 +64,9 @@ func init() {
 		"Trusted: the reference tree and resolver. Lookups with duplicate sibling names and malformed expressions are only required not to crash.",
 		"deterministic simulation (degenerate: sequential seeded histories) with stepwise reference-model refinement",
 		"DESIGN.md 5.4")
+	t("C14",
+		"Seeded firmware images with injected faults (corrupted tables at any position, decoys, mapping failure at call k); the registered set must equal exactly the checksum-valid listed tables plus the DSDT of a valid FADT; enumeration must continue past every corrupted table and report it.",
+		"Trusted: image builder (ACPI layout, independent of the Go structs), checksum arithmetic of the oracle. Weakest 'fault' fit: the image is immutable during the call.",
+		"deterministic simulation with fault injection: simulated firmware memory, seeded corruption/decoy/mapping-failure plans, exact-set oracle",
+		"DESIGN.md 5.5")
 }
